@@ -60,6 +60,7 @@ class Stub:
         self.added = []
         self.updates = 0
         self.track_variances = False
+        self.rho = None                      # per-design correlation of the ellipsoidal posterior
 
     def lookup(self, x):
         x = np.atleast_2d(np.asarray(x, dtype=float))[:, :self.input_dim]
@@ -96,7 +97,13 @@ class Stub:
                 cov = np.array([np.eye(self.output_dim) for _ in idx])
         else:
             # ellipsoid: Sigma diagonal with (hw/scale)^2 on a 2^-40 grid
-            cov = np.array([np.diag(np.maximum(np.round((h / sc) ** 2 * 2 ** 40) / 2 ** 40, 2.0 ** -40)) for h in hw[idx]])
+            cov = []
+            for i, h in zip(idx, hw[idx]):
+                v = float(np.maximum(np.round((h[0] / sc) ** 2 * 2 ** 40) / 2 ** 40, 2.0 ** -38))
+                rho = self.rho[i] if self.rho is not None else 0.0
+                M = np.full((self.output_dim, self.output_dim), rho * v); np.fill_diagonal(M, v)
+                cov.append(M)
+            cov = np.array(cov)
         return mu, cov
 
     def add_sample(self, *a):
@@ -171,7 +178,7 @@ REGION = {"PaVeBa-real": "ell", "Auer-real": "auer", "PaVeBa": "ell", "PaVeBaGP-
 
 
 def build(algo_name, X, Y, W, eps, sched, batch=1, costs=None, budget=None, delta=0.1, noise_var=0.01, contraction=1.0,
-          auer_empirical=False, obs_noise=None):
+          auer_empirical=False, obs_noise=None, rho=None):
     """construct the real algorithm object around a stub posterior"""
     import vopy.algorithms.paveba_gp as m_pgp, vopy.algorithms.paveba_partial_gp as m_ppgp
     import vopy.algorithms.vogp as m_vogp, vopy.algorithms.epal as m_epal
@@ -179,6 +186,7 @@ def build(algo_name, X, Y, W, eps, sched, batch=1, costs=None, budget=None, delt
     name = make_ds(X, Y)
     order = impl.order_from_W(W, with_alpha=True) if algo_name not in ("EpsilonPAL", "Auer", "Auer-real") else None
     stub = Stub(X, sched, REGION[algo_name])
+    stub.rho = rho
     fac = lambda *a, **k: stub
     saved = []
     for mod, attr in ((m_pgp, "get_gpytorch_model_w_known_hyperparams"), (m_ppgp, "get_gpytorch_modellist_w_known_hyperparams"),
